@@ -236,6 +236,15 @@ Theorem C13_every_reachable_tree_satisfies_the_premises :
   DynMkdir.closed2 s /\ DynRemove.ents_ok s /\ DynRemoveExact.uniq s /\ DynMkdirComplete.dirs_ok s /\ DynRemoveConc.tree_ok s.
 Proof. exact DynInv.reachable_premises. Qed.
 
+(* ---- the depth bound is an invariant too: on every tree built by operations that move no directory (renameat2 of
+   non-directories is included), remove_all never runs out of fuel -- #objects + #entries + 6 suffices, whatever it
+   is asked to remove *)
+From PV Require DynDepth.
+Theorem C13_remove_all_terminates_on_reachable_trees :
+  forall ops s d name f, DynDepth.run_ops DynInv.root_only ops = Some s ->
+  (length (FSModel.kinds s) + length (FSModel.ents s) + 6 <= f)%nat -> DynRemove.rm_all f s d name <> None.
+Proof. exact DynDepth.remove_all_terminates_on_reachable. Qed.
+
 (* executed (non-vacuity): a/ has a sub-directory with a file, a link to a sibling and a link to the
    outside; remove_all("a") on both backends removes a and everything below, follows neither link
    (keep/ and its content stay), returns Ok; the pure function gives the same tree; remove_all of a
@@ -280,3 +289,4 @@ Print Assumptions C13_later_caller_succeeds_without_change.
 Print Assumptions C13_interference_free_is_spec.
 Print Assumptions C13_converges_under_racing_removers.
 Print Assumptions C13_every_reachable_tree_satisfies_the_premises.
+Print Assumptions C13_remove_all_terminates_on_reachable_trees.
